@@ -74,6 +74,12 @@ def judgeKeygenWith (requireAll : Bool) (inp : Json) : List String :=
       let fromTable := reconstructPt (S.map fun p => (idScalar p.id, ((tbl.find? fun e => e.1 == p.id).bind (·.2)).getD .inf))
       mul sk G != pub || fromTable != pub
     let why := if !bad.isEmpty then why ++ [s!"{bad.length} of {subsets.length} subsets of size t+1 do not reconstruct the group key"] else why
+    -- the WHOLE public table is one sharing (it may list more parties than took part, e.g. after a refresh by a subset):
+    -- every t+1 of its entries interpolate, in the exponent, to the group key
+    let entries := tbl.filterMap fun e => e.2.map fun P => (idScalar e.1, P)
+    let tsub := if entries.length ≥ t + 1 && entries.length ≤ 6 then choose (t + 1) entries else []
+    let tbad := tsub.filter fun S => reconstructPt S != pub
+    let why := if !tbad.isEmpty then why ++ [s!"{tbad.length} of {tsub.length} sets of t+1 table entries do not interpolate to the group key"] else why
     why
 
 def judgeKeygen (inp : Json) : List String := judgeKeygenWith true inp
@@ -213,7 +219,20 @@ def judgeTamper (inp : Json) : List String :=
   let whyEquiv :=
     if jbool inp "equivocated" && (jarr inp "parties").length ≥ 2 then
       ["two honest parties that were shown different broadcasts of the deviating party both finished"] else []
-  whyResult ++ whyBlame ++ whyClean ++ whyIdent ++ whyImp ++ whyEquiv
+  -- C04: a PROVABLE deviation (a value that fails its own public verification equation) is attributed: some honest party
+  -- reaches a verdict of its own, and every such verdict names exactly the deviating party
+  let whyNamed :=
+    if jbool inp "expect_named" then
+      (if blame.isEmpty then ["no honest party reached a verdict of its own although the deviation is provable"] else []) ++
+      (blame.filterMap fun (who, b) =>
+        let cs := (jarr b "culprits").map fun c => c.getStr?.toOption.getD ""
+        if cs == [cheater] then none
+        else some s!"honest party {who} ended with the verdict {cs} instead of exactly the deviating party {cheater}: {jstr b "err"}")
+    else []
+  -- presignatures: the honest signers that finished hold ONE presignature (same id, same R)
+  let pres := (jarr inp "presigs").map fun p => (jstr p "psid", jstr p "R")
+  let whyPres := if !allEq pres then ["honest signers finished with different presignatures (id / R differ)"] else []
+  whyResult ++ whyBlame ++ whyClean ++ whyIdent ++ whyImp ++ whyEquiv ++ whyNamed ++ whyPres
 
 def verdict (why : List String) : Json :=
   if why.isEmpty then jobj [("ok", true)] else jobj [("ok", false), ("why", Json.arr (why.map Json.str).toArray)]
